@@ -45,10 +45,12 @@ def jobs_conf(tier, dispatching=False):
     # one family per property; host level, fast + checked. BLAKE and JH dispatch over ppv-lite86 back ends:
     # they are also run on every emulated level and the portable build (the full matrix is C03's business)
     if tier == "quick":
-        js = [J("std", "fast"), J("std", "checked", scale=0.5)]
+        js = [J("std", "fast", args={"--primary": "1"}), J("std", "checked", scale=0.5)]
     else:
-        # the thorough volume is split over shards (derived seeds) so that it runs in parallel
-        js = [J("std", "fast", scale=0.25, shard=i) for i in range(4)] + [J("std", "checked", scale=0.25, shard=i) for i in range(2)]
+        # the thorough volume is split over shards (derived seeds) so that it runs in parallel; the multi-MiB
+        # enumerated cases are run by the primary worker only
+        js = [J("std", "fast", scale=0.25, shard=i, args=({"--primary": "1"} if i == 0 else {})) for i in range(4)]
+        js += [J("std", "checked", scale=0.25, shard=i) for i in range(2)]
         js.append(J("std", "dev", scale=0.02))
     if dispatching:
         js += levels("std", "fast", 0.15) + [J("nosimd", "fast", scale=0.15)]
